@@ -88,6 +88,14 @@ func (r *Parser) Next(f *Field) bool {
 // Err returns the last read error. At the end of input
 // it will always be equal to io.EOF.
 func (r *Parser) Err() error {
+	// A read error takes precedence: bufio.Scanner hands the remaining bytes to the
+	// split function as if the input had ended, so the field parser may see a
+	// truncated line and report ErrUnexpectedEOF, which would hide the real cause.
+	if r.inputScanner != nil {
+		if err := r.inputScanner.Err(); err != nil {
+			return err
+		}
+	}
 	if err := r.fieldScanner.Err(); err != nil {
 		return err
 	}
